@@ -217,3 +217,55 @@ class BuilderFamily(Family):
     def classify(self, ctx, sc, py):
         for op, rec in zip(sc["ops"], py):
             ctx.count(f"op:{op[0]}:{rec[0]}" + (":" + rec[1] if rec[0] == "err" else ""))
+
+
+class GraphFamily(Family):
+    """cyclic dict / list structures under the real action budget (C20)"""
+    name = "g"
+    ops_key = "path"
+
+    def gen(self, rng, profile):
+        n = rng.randint(2, 5)
+        nodes = []
+        keys = ["a", "b", "x", "self", "k"]
+        for i in range(n):
+            r = rng.random()
+            if r < 0.5:
+                ks = rng.sample(keys, rng.randint(1, 3))
+                nodes.append(["d", [[k, rng.randrange(n)] for k in ks]])
+            elif r < 0.8:
+                nodes.append(["l", [rng.randrange(n) for _ in range(rng.randint(0, 3))]])
+            else:
+                nodes.append(["s", rng.choice([0, 1, None, "s", True])])
+        if nodes[0][0] == "s":
+            nodes[0] = ["d", [["self", 0], ["x", rng.randrange(n)]]]
+        steps = [["rec"]]
+        r = rng.random()
+        if r < 0.35:
+            steps.append(["k", rng.choice(keys + ["nope"])])
+        elif r < 0.5:
+            steps.append(["i", rng.choice([0, 1, -1])])
+        elif r < 0.65:
+            steps.append(["k", "nope"])
+        elif r < 0.8:
+            steps.append(rng.choice([["wc"], ["gwc"], ["iwc"]]))
+            steps.append(["k", rng.choice(["nope", "x"])])
+        elif r < 0.9:
+            steps.append(["par"])      # (filters are left out: the harness' call log would unfold cyclic data)
+        if rng.random() < 0.3:
+            steps = [["k", rng.choice(keys)]] + steps
+        return {"fam": "g", "nodes": nodes, "root": 0, "path": steps, "nexts": rng.randint(1, 3)}
+
+    def observe(self, sc):
+        from observe import observe_graph
+        return observe_graph(sc)
+
+    def nontrivial(self, sc, py):
+        return any(r["s"][0] == "X" for r in py) or sum(1 for r in py if r["s"][0] == "R") >= 1
+
+    def classify(self, ctx, sc, py):
+        for r in py:
+            ctx.count("graph:" + (r["s"][0] if r["s"][0] != "X" else "X:" + r["s"][1][0]))
+
+    def shrink(self, v, budget_s=10.0):
+        return v
